@@ -5,6 +5,7 @@
 import SolverzModel.Core.Lang
 import SolverzModel.Proofs.Diff
 import SolverzModel.Generated.FnRules
+import Mathlib.Analysis.SpecialFunctions.Pow.Real
 namespace Solverz
 open SEx
 
@@ -34,6 +35,43 @@ theorem C02_shape (m : LModel ℝ) (ρ : Env ℝ) (res : List (SEx ℝ)) (hres :
     simp only [List.mem_map] at hrow
     obtain ⟨e, _, rfl⟩ := hrow
     simp
+
+/-! ### powers with a real exponent (`x ** 0.5`, `x ** p`, `a ** x`) -/
+
+/-- the derived form `powr a b = exp(b · ln a)` **is** the real power for a positive base -/
+theorem C02_powr_meaning (ρ : Env ℝ) (a b : SEx ℝ) (ha : 0 < eval realF ρ a) :
+    eval realF ρ (SEx.powr a b) = (eval realF ρ a) ^ (eval realF ρ b) := by
+  rw [Real.rpow_def_of_pos ha]
+  simp [SEx.powr, eval, evalFn1, mul_comm]
+
+/-- its derivative in the familiar form: a^b · (b' · ln a + b · a' / a), for a positive base, wherever the two
+sub-expressions are away from their kinks (base and exponent may both depend on the variable) -/
+theorem C02_powr_derivative (ρ : Env ℝ) (c : ℕ) (a b : SEx ℝ) (ha : 0 < eval realF ρ a)
+    (hka : KinkFree ρ a) (hkb : KinkFree ρ b) :
+    HasDerivAt (fun x => eval realF (ρ.setY c x) (SEx.powr a b))
+      ((eval realF ρ a) ^ (eval realF ρ b) *
+        (eval realF ρ (SEx.diff realF c b) * Real.log (eval realF ρ a) +
+          eval realF ρ b * (eval realF ρ (SEx.diff realF c a) / eval realF ρ a))) (ρ.y c) := by
+  have hk : KinkFree ρ (SEx.powr a b) := ⟨hkb, hka, ne_of_gt ha⟩
+  have h := diff_correct (SEx.powr a b) c ρ hk
+  have e : eval realF ρ (SEx.diff realF c (SEx.powr a b)) =
+      (eval realF ρ a) ^ (eval realF ρ b) *
+        (eval realF ρ (SEx.diff realF c b) * Real.log (eval realF ρ a) +
+          eval realF ρ b * (eval realF ρ (SEx.diff realF c a) / eval realF ρ a)) := by
+    rw [Real.rpow_def_of_pos ha]
+    simp [SEx.powr, SEx.diff, eval, evalFn1, mul_comm]
+  rw [e] at h; exact h
+
+/-- non-vacuous: y₀ ** y₁ at (2, 3): value 8, ∂/∂y₀ = 3·2² = 12 -/
+example : let ρ : Env ℝ := ⟨fun i => if i = 0 then 2 else 3, fun _ => 0, fun _ => 0⟩
+    0 < eval realF ρ (.y 0) ∧ eval realF ρ (SEx.powr (.y 0) (.y 1)) = 8 ∧
+      (2:ℝ) ^ (3:ℝ) * (eval realF ρ (SEx.diff realF 0 (.y 1)) * Real.log 2 + 3 * (eval realF ρ (SEx.diff realF 0 (.y 0)) / 2)) = 12 := by
+  intro ρ
+  have h23 : (2:ℝ) ^ (3:ℝ) = 8 := by
+    rw [show (3:ℝ) = ((3:ℕ):ℝ) by norm_num, Real.rpow_natCast]; norm_num
+  refine ⟨by simp [ρ, eval], ?_, ?_⟩
+  · rw [C02_powr_meaning ρ _ _ (by simp [ρ, eval])]; simpa [ρ, eval] using h23
+  · rw [h23]; simp [ρ, SEx.diff, eval]; norm_num
 
 /-! ### the derivative rules are the code's rules (T4) -/
 
